@@ -104,13 +104,16 @@ class MetaRunner(object):
     async def _launch_runners(self) -> List[asyncio.Task]:
         """Launch all runners inside the current `asyncio` event loop"""
         asyncio_loop = asyncio.get_event_loop()
-        self._runners = {}
+        runners = {}
         runner_tasks = []
         for runner_type in self.runner_types:
-            runner = self._runners[runner_type.flavour] = runner_type(asyncio_loop)
+            runner = runners[runner_type.flavour] = runner_type(asyncio_loop)
             runner_tasks.append(asyncio_loop.create_task(runner.run()))
-        for runner in self._runners.values():
+        for runner in runners.values():
             await runner.ready()
+        # Publish the runners only now that all of them accept payloads:
+        # payloads registered from other threads in the meantime are still queued.
+        self._runners = runners
         return runner_tasks
 
     async def _unqueue_payloads(self) -> None:
